@@ -59,6 +59,9 @@ SEQ = {
     "C15": dict(families=["diverge"], needs=["panic:iterlimit", "op:set"], scale=0.4,
                 rule="diverge family: f = NOT f under an input switch, plus a convergent cycle and unrelated functions; "
                      "non-trivial = the iteration limit was hit and an input written"),
+    "C26": dict(families=["persist"], variant="persist", mode="persist", needs=["restored", "op:set", "dv"],
+                rule="persist family (persistence build): persisted and non-persisted functions, histories with serialize -> drop -> "
+                     "deserialize into a fresh database between writes; non-trivial = a restore, a write and a validated reuse"),
     "C23": dict(families=["core", "lru", "struct", "intern", "mixed"], needs=["drop", "retained"],
                 rule="value lifetime discipline over all sequential families; non-trivial = values dropped and "
                      "references retained across a read phase"),
@@ -115,7 +118,7 @@ def known_match(known, pid, job, job_trace):
 def run_seq(pid, tier, seed, replay):
     t0 = time.time()
     cfg = SEQ[pid]
-    binary, bt = build_harness("default")
+    binary, bt = build_harness(cfg.get("variant", "default"))
     log(f"[{pid}] harness built in {bt:.1f}s")
     wd = workdir(f"{pid}-{tier}")
     known = load_known()
@@ -124,14 +127,14 @@ def run_seq(pid, tier, seed, replay):
     if replay:
         rp = json.load(open(replay))
         jobs = [rp["job"]] if "job" in rp else rp["jobs"]
-        results.append(seqcheck.run_family(binary, rp.get("family", "replay"), seed, 0, 0, wd, jobs=jobs))
+        results.append(seqcheck.run_family(binary, rp.get("family", "replay"), seed, 0, 0, wd, jobs=jobs, mode=cfg.get("mode", "seq")))
     else:
         t = TIERS[tier]
         mcinfo = run_mc_part(pid, cfg, tier, seed, binary, wd, results)
         fams = cfg["families"]
         with ThreadPoolExecutor(max_workers=min(8, len(fams))) as ex:
             futs = [ex.submit(seqcheck.run_family, binary, fam, seed * 1000 + i,
-                              max(10, int(t["njobs"] * cfg.get("scale", 1) * JOBS_FACTOR.get(fam, 1))), t["nops"] * NOPS_FACTOR.get(fam, 1), wd)
+                              max(10, int(t["njobs"] * cfg.get("scale", 1) * JOBS_FACTOR.get(fam, 1))), t["nops"] * NOPS_FACTOR.get(fam, 1), wd, None, cfg.get("mode", "seq"))
                     for i, fam in enumerate(fams)]
             results += [f.result() for f in futs]
         if cfg.get("par"):
